@@ -8,10 +8,10 @@ LIBT="$WT/target"; DEMOT="${DEMO_TARGET:-$WT/target}"
 cd "$WT" || exit 2
 git checkout -q -- src 2>/dev/null
 cp "$D/demo.rs" "tests/$NAME.rs"
-R1=$(RUSTFLAGS="${DEMO_RUSTFLAGS:-}" CARGO_TARGET_DIR="$DEMOT" cargo test --offline --test "$NAME" 2>&1 | grep -E "^test result" | tail -1)
+R1=$(RUSTFLAGS="${DEMO_RUSTFLAGS:-}" CARGO_TARGET_DIR="$DEMOT" cargo test --offline ${DEMO_ARGS:-} --test "$NAME" 2>&1 | grep -E "^test result" | tail -1)
 git apply "$D/patch.diff" || { echo "APPLY FAILED"; exit 2; }
 R2=$(CARGO_TARGET_DIR="$LIBT" cargo test --offline --lib 2>&1 | grep -E "^test result" | tail -1)
-R3=$(RUSTFLAGS="${DEMO_RUSTFLAGS:-}" CARGO_TARGET_DIR="$DEMOT" cargo test --offline --test "$NAME" 2>&1 | grep -E "^test result" | tail -1)
+R3=$(RUSTFLAGS="${DEMO_RUSTFLAGS:-}" CARGO_TARGET_DIR="$DEMOT" cargo test --offline ${DEMO_ARGS:-} --test "$NAME" 2>&1 | grep -E "^test result" | tail -1)
 R4=$(CARGO_TARGET_DIR="$LIBT" cargo test --offline --test cross-sync --test update-and-delete-sync --test syncing-proptest 2>&1 | grep -E "^test result" | tr '\n' ';')
 git checkout -q -- src; rm -f "tests/$NAME.rs"
 echo "{\"demo_unmodified\": \"$R1\", \"lib_with_patch\": \"$R2\", \"demo_with_patch\": \"$R3\", \"integration_with_patch\": \"$R4\", \"demo_rustflags\": \"${DEMO_RUSTFLAGS:-}\"}" > "$D/confirm.json"
